@@ -13,7 +13,7 @@ c_Chans == {A, B, C}
 c_Groups == {G1, G2}
 c_GroupOf == (A :> G1) @@ (B :> G1) @@ (C :> G2)
 c_ObjLists == {<<R, G1, A, B>>, <<A>>, <<C, A>>, <<B, R>>, <<G1>>, <<C>>, <<A, B, C>>}
-c_ObjListsQ == {<<R, G1, A, B>>, <<C, A>>, <<B, R>>, <<A>>}
+c_ObjListsQ == {<<R, G1, A, B>>, <<C, A>>, <<B, R>>, <<A>>, <<G1>>, <<G2, G1>>}
 c_TypeSet == {"Int32", "String", "TimeStamp", "DoubleFloatWithUnit"}
 c_TypeSetQ == {"Int32", "String"}
 c_Width == [t \in c_TypeSet |-> CASE t = "Int32" -> 4 [] t = "TimeStamp" -> 16 [] t = "DoubleFloatWithUnit" -> 8 [] OTHER -> 6]
